@@ -74,7 +74,7 @@ def bounds(tier):
         return {"K": 2, "K_small": 3, "inners": QUICK_INNERS, "ncs": [1, 2], "outer_terms": [("C", 0), ("C", 20), ("C", 150), ("E", 10), (None, 0)],
                 "ps": [True]}
     return {"K": 3, "K_small": 4, "inners": ALL_INNERS, "ncs": [1, 2, 3],
-            "outer_terms": [("C", 0), ("C", 10), ("C", 20), ("C", 150), ("E", 10), ("E", 150), (None, 0)], "ps": [True]}
+            "outer_terms": [("C", 0), ("C", 10), ("C", 20), ("C", 150), ("E", 10), ("E", 150), (None, 0)], "ps": [True, False]}
 
 
 def vals(seed, p):
@@ -122,6 +122,8 @@ def all_cases(tier, seed):
             if K >= 1:
                 yield dict(common, op="rx_merge", params={}, sources=static, outer="o", inner_names=names, arr=[], oterm=["C", 0])
                 yield dict(common, op="merge_op", params={}, sources=static, outer="o", inner_names=names, arr=[], oterm=["C", 0])
+            if not ps:
+                continue  # only the static forms create a source of their own that could use the subscribe-time scheduler
             for arr in ARRIVALS[K]:
                 for term in B["outer_terms"]:
                     src = dict(inners)
@@ -130,7 +132,7 @@ def all_cases(tier, seed):
                         yield dict(common, op=op, params=params, sources=src, outer="o", inner_names=names, arr=arr, oterm=list(term),
                                    resolve=(["o"] if op in ("merge_all", "merge_mc") else []))
         # the same cold inner for every outer element; iterable results
-        for K in range(1, B["K"] + 2):
+        for K in range(1, (B["K"] + 2) if ps else 0):
             for iname in B["inners"]:
                 for arr in ARRIVALS[K]:
                     for term in B["outer_terms"]:
@@ -256,6 +258,7 @@ def run(ctx: core.Ctx):
         "inners_full_set": B["K"], "inners_small_set": B["K_small"], "inner_set": list(B["inners"]), "small_set": list(SMALL_INNERS),
         "max_concurrent": [None] + B["ncs"], "outer_terminals(kind, offset after last arrival)": B["outer_terms"],
         "arrival_patterns": {str(k): v for k, v in ARRIVALS.items() if k <= B["K_small"]},
+        "scheduler_passed_to_subscribe": "True; static forms (merge(*sources)) also without" if len(B["ps"]) > 1 else "True",
     }
     ctx.assumptions = [
         "VirtualTimeScheduler queue discipline (checked separately by C28/C29)",
